@@ -36,6 +36,7 @@ REMOVERS = ("collapse", "reduce")
 DENSIFIERS = ("subdivide", "interp", "interpn")
 LEN_MONOTONE = ("collapse", "reduce", "rope", "pshort")       # "never longer" (metric space, length objective)
 OWN_OBJECTIVE = ("rope", "pshort", "perturb", "bettergoal")   # compare costs under their objective before replacing
+ROPE_OBJ = ("work", "lin", "wreg", "wreg", "toll", "step")      # objectives of the lock-step ropeShortcutPath under an objective (`ropeo`)
 PSHORT_OBJ = ("len", "work", "lin", "wreg", "wreg", "toll", "step", "checker")    # objectives of the scripted partialShortcutPath (`pshorto`), lock-step
 RET_FALSE_UNCHANGED = ("collapse", "reduce", "pshort", "perturb", "bettergoal")
 
@@ -219,6 +220,11 @@ def gen_ops(rng, sc, tier):
         if L / delta + n > 45:
             delta = L / 8 if n <= 30 else 2.5 * L
         ops.append(("rope", "rope %s %s" % (B(delta), B(rng.choice([0.1, 0.1, 0.01, 0.5])))))
+    for _ in range(2):
+        delta = rng.choice([L / 3, L / 6, L / 10, 1.0, L])
+        if L / delta + n > 45:
+            delta = L / 8 if n <= 30 else 2.5 * L
+        ops.append(("rope", "ropeo %s %s %s" % (rng.choice(ROPE_OBJ), B(delta), B(rng.choice([0.1, 0.1, 0.01, 0.5])))))
     ops.append(("subdivide", "subdivide"))
     if L / sc.lvs() < 3000:
         ops.append(("interp", "interp"))
@@ -637,8 +643,12 @@ def run_scenario(ck, hbin, hchk, sc, ops, tag, seedtag):
             continue
         t = line.split()
         rnd = t[0] == "rnd"
-        objective = t[2] if rnd else t[1] if t[0] == "pshorto" else "len"
-        ck.count("op:" + ("rnd-" if rnd else "") + routine + ("-obj" if t[0] == "pshorto" else ""))
+        objective = t[2] if rnd else t[1] if t[0] in ("pshorto", "ropeo") else "len"
+        ck.count("op:" + ("rnd-" if rnd else "") + routine + ("-obj" if t[0] in ("pshorto", "ropeo") else ""))
+        if t[0] == "ropeo":
+            ck.count("ropeo:objective=" + objective)
+            if "r 1 " in o[:5]:
+                ck.count("ropeo:shortcut-taken:" + objective)
         if t[0] == "pshorto":
             ck.count("pshorto:objective=" + objective)
         if o == "budget-exceeded":
@@ -690,7 +700,9 @@ def run_scenario(ck, hbin, hchk, sc, ops, tag, seedtag):
         for (routine, line, res, o), m in zip(dmap, model[2:]):
             ck.traces_validated += 1
             impl_c = canon(res["prefix"])
-            corr = lambda: dict(kind="corr", routine=routine, clause="lockstep", detail="model and implementation differ",
+            corr = lambda: dict(kind="corr", routine=routine, clause="lockstep",
+                                detail="model and implementation differ (op %s%s)" % (line.split()[0], ", objective " + line.split()[1] if line.split()[0] in ("pshorto", "ropeo") else ""),
+                                opname=line.split()[0] + (":" + line.split()[1] if line.split()[0] in ("pshorto", "ropeo") else ""),
                                 script=hdr + [line], dscript=dscript[:3] + [dscript[3 + [x[1] for x in dmap].index(line)]],
                                 observed=[res["prefix"]], model=[m])
             idx_err = lambda: dict(kind="idx", routine=routine, clause="indices_in_range", cls="model-index-error",
@@ -1618,6 +1630,8 @@ def gen_region_detour(rng):
         ops.append(("pshort", " ".join(["pshorto", ob_, str(rng.choice([0, 10, 50])), str(rng.choice([0, 0, 20])), B(rng.choice([1.0, 1.0, 0.5, 0.33])),
                                         B(rng.choice([0.0, 0.005, 0.005, 0.05, 0.2])), str(k)] + [B(x) for x in us])))
     L = path_len(sc, path)
+    for ob_ in (main, main, "wreg" if main == "lin" else "lin"):
+        ops.append(("rope", "ropeo %s %s %s" % (ob_, B(rng.choice([L / 8, L / 5, 1.0, L / 3])), B(rng.choice([0.1, 0.01])))))
     for _ in range(3):
         sd = rng.below(100000)
         for ob_ in (main, "wreg" if main == "lin" else "lin"):
@@ -1877,7 +1891,7 @@ def run_corpus_script(ck, hbin, name, script, hchk=None):
     for l in rest:
         t = l.split()
         rt_ = t[3] if t[0] == "rnd" else t[0]
-        ops.append(("pshort" if rt_ == "pshorto" else rt_, l))
+        ops.append(("pshort" if rt_ == "pshorto" else "rope" if rt_ == "ropeo" else rt_, l))
     return run_scenario(ck, hbin, hchk, sc, ops, "corpus", name)
 
 
@@ -1959,7 +1973,7 @@ def handle(ck, issues, hchk, state):
             ck.report({"engine": "pathops", "routine": it["routine"], "clause": it["clause"], "objective": it.get("objective", "len"),
                        "class": it.get("cls"), "what": it["detail"]}, script=it["script"], expected=None, observed=it["observed"], engine="pathops")
         else:
-            key = (it["routine"], "lockstep", None)
+            key = (it["routine"], "lockstep", it.get("opname"))
             if capped(key):
                 continue
             state["bad"] += 1
